@@ -29,7 +29,7 @@ RULE = ("seeded random graphs: grid with one grid meter or 1-4 arbitrary success
         "dedicated / mixed / load-only meters, battery inverters with 1-2 batteries, PV inverters, EV chargers, CHPs "
         "behind a CHP meter. distinct = canonical graph+assignment JSON; non-trivial = >=2 device classes present "
         "and >=1 meter")
-REQUIRED_BUCKETS = ["formula-for-a-sub-set-of-the-devices", "no-grid-meter", "single-grid-meter", "several-grid-successors", "nested-meters",
+REQUIRED_BUCKETS = ["battery-fed-by-inverters-behind-different-meters", "formula-for-a-sub-set-of-the-devices", "no-grid-meter", "single-grid-meter", "several-grid-successors", "nested-meters",
                     "device-directly-under-grid", "grid-meter-over-one-device-kind-with-building-load", "mixed-meter", "dedicated-meter", "load-only-meter", "has-chp",
                     "has-battery", "has-pv", "has-ev", "fallback-formula-evaluated", "battery-behind-several-inverters"]
 REQUIRED_COUNTERS = ["formulas_evaluated", "balance_checks", "graphs_valid"]
@@ -121,6 +121,16 @@ def gen(rng: Any, tier: str, i: int) -> Any:
             else:
                 add_device(1, rng.choice(["bat", "pv", "ev", "chp"]))
     kinds = dict((n, k) for n, k in nodes)
+    if rng.random() < 0.2:
+        # a battery that is also fed by an inverter behind *another* meter (a bank with inverters on two feeders)
+        par = {b: a for a, b in edges if kinds[b] == "batinv"}
+        invs = sorted(par)
+        pairs = [(x, y) for x in invs for y in invs if x < y and par[x] != par[y]]
+        if pairs:
+            x, y = rng.choice(pairs)
+            bats_x = [b for a, b in edges if a == x and kinds[b] == "bat"]
+            if bats_x and [y, bats_x[0]] not in edges:
+                edges.append([y, bats_x[0]])
     children: dict[int, list[int]] = {n: [] for n, _ in nodes}
     for a, b in edges:
         children[a].append(b)
@@ -243,6 +253,8 @@ def check(case: dict[str, Any], rec: Any) -> None:
                 rec.bucket("mixed-meter")
     if any(k == "bat" and len(parents[n]) > 1 for n, k in kinds.items()):
         rec.bucket("battery-behind-several-inverters")
+    if any(k == "bat" and len({tuple(parents[i]) for i in parents[n]}) > 1 for n, k in kinds.items()):
+        rec.bucket("battery-fed-by-inverters-behind-different-meters")
     present = set(kinds.values())
     for k, name in (("chp", "has-chp"), ("batinv", "has-battery"), ("pvinv", "has-pv"), ("ev", "has-ev")):
         if k in present:
